@@ -787,4 +787,852 @@ theorem boydKids_fix : (ks : List Tree) → (ks' : List Tree) → boydKids ks = 
         · simp only [List.singleton_append, raiseKids, h2, h4]
 end
 
+/-! ### normal form `sortKids ∘ stripT` -/
+
+/-- normal form modulo storage order and everything but labels, words, numbers -/
+def N (t : Tree) : Tree := sortKids (stripT t)
+
+theorem sortKidsL_eq : ∀ ks : List Tree, sortKidsL ks = ks.map sortKids
+  | [] => rfl
+  | t :: ts => by simp [sortKidsL, sortKidsL_eq ts]
+
+theorem N_leaf (n : Nat) (f : Fields) : N (leaf n f) = leaf n { label := f.label, word := f.word } := by
+  simp [N, stripT, sortKids]
+
+theorem N_node (f : Fields) (ks : List Tree) :
+    N (node f ks) = node { label := f.label } (sortBy leftmost (ks.map N)) := by
+  simp only [N, stripT, sortKids, sortKidsL_eq, stripTL_eq, List.map_map]
+  rfl
+
+mutual
+theorem leaves_sortKids : (t : Tree) → ((sortKids t).leaves.map num).Perm (t.leaves.map num)
+  | .leaf n f => by simp [sortKids]
+  | .node f ks => by
+    simp only [sortKids, leaves]
+    rw [leavesL_eq]
+    refine (((sortBy_perm leftmost (sortKidsL ks)).flatMap_right leaves).map num).trans ?_
+    rw [← leavesL_eq]
+    exact leavesL_sortKids ks
+theorem leavesL_sortKids : (ks : List Tree) →
+    ((leavesL (sortKidsL ks)).map num).Perm ((leavesL ks).map num)
+  | [] => by simp [sortKidsL]
+  | t :: ts => by
+    simp only [sortKidsL, leavesL, List.map_append]
+    exact (leaves_sortKids t).append (leavesL_sortKids ts)
+end
+
+theorem leafNums_N (t : Tree) : (N t).leafNums.Perm t.leafNums := by
+  have := leaves_sortKids (stripT t)
+  rw [leaves_stripT] at this
+  exact this
+
+theorem yield_N (t : Tree) : yield (N t) = yield t := by
+  rw [yield_eq, yield_eq]; exact sortBy_id_congr (leafNums_N t)
+
+theorem leftmost_N (t : Tree) : leftmost (N t) = leftmost t := by
+  simp only [leftmost, yield_N]
+
+theorem yield_of_N_eq {a b : Tree} (h : N a = N b) : yield a = yield b := by
+  rw [← yield_N a, h, yield_N]
+
+/-! ### generic partition lemma -/
+
+theorem pairwise_mem_cases {α} {R : α → α → Prop} (hsym : ∀ a b, R a b → R b a) :
+    ∀ {l : List α}, l.Pairwise R → ∀ {a b : α}, a ∈ l → b ∈ l → a = b ∨ R a b
+  | [], _, _, _, ha, _ => by simp at ha
+  | x :: l, hp, a, b, ha, hb => by
+    rw [List.pairwise_cons] at hp
+    rcases List.mem_cons.1 ha with rfl | ha' <;> rcases List.mem_cons.1 hb with rfl | hb'
+    · exact Or.inl rfl
+    · exact Or.inr (hp.1 b hb')
+    · exact Or.inr (hsym _ _ (hp.1 a ha'))
+    · exact pairwise_mem_cases hsym hp.2 ha' hb'
+
+/-- if every member of a group has its key in the group's set and the sets of different groups
+    are disjoint, a group is recovered by filtering the concatenation -/
+theorem filter_flatten_group {α} (key : α → Nat) (S : List α → List Nat) :
+    ∀ (G : List (List α)), (∀ g ∈ G, ∀ z ∈ g, key z ∈ S g) →
+      G.Pairwise (fun a b => ∀ n ∈ S a, n ∉ S b) →
+      ∀ g ∈ G, G.flatten.filter (fun z => decide (key z ∈ S g)) = g
+  | [], _, _, g, hg => by simp at hg
+  | g0 :: G, hk, hp, g, hg => by
+    rw [List.pairwise_cons] at hp
+    rw [List.flatten_cons, List.filter_append]
+    rcases List.mem_cons.1 hg with rfl | hg'
+    · have h1 : g.filter (fun z => decide (key z ∈ S g)) = g :=
+        List.filter_eq_self.2 (fun z hz => by simpa using hk g List.mem_cons_self z hz)
+      have h2 : G.flatten.filter (fun z => decide (key z ∈ S g)) = [] := by
+        rw [List.filter_eq_nil_iff]
+        intro z hz
+        obtain ⟨g', hg', hz'⟩ := List.mem_flatten.1 hz
+        have := hk g' (List.mem_cons_of_mem _ hg') z hz'
+        simp only [decide_eq_true_eq]
+        intro hc
+        exact hp.1 g' hg' _ hc this
+      rw [h1, h2, List.append_nil]
+    · have h1 : g0.filter (fun z => decide (key z ∈ S g)) = [] := by
+        rw [List.filter_eq_nil_iff]
+        intro z hz
+        simp only [decide_eq_true_eq]
+        exact hp.1 g hg' _ (hk g0 List.mem_cons_self z hz)
+      rw [h1, List.nil_append]
+      exact filter_flatten_group key S G (fun g' hg'' => hk g' (List.mem_cons_of_mem _ hg'')) hp.2 g hg'
+
+/-- two numbers of the same group lie in the same groups -/
+theorem mem_group_iff {α} (S : List α → List Nat) {G : List (List α)}
+    (hp : G.Pairwise (fun a b => ∀ n ∈ S a, n ∉ S b)) {g g' : List α} (hg : g ∈ G) (hg' : g' ∈ G)
+    {n1 n2 : Nat} (h1 : n1 ∈ S g') (h2 : n2 ∈ S g') : n1 ∈ S g ↔ n2 ∈ S g := by
+  have hsym : ∀ a b : List α, (∀ n ∈ S a, n ∉ S b) → (∀ n ∈ S b, n ∉ S a) :=
+    fun a b h n hn hn' => h n hn' hn
+  rcases pairwise_mem_cases hsym hp hg' hg with rfl | hd
+  · exact ⟨fun _ => h2, fun _ => h1⟩
+  · exact ⟨fun h => absurd h (hd _ h1), fun h => absurd h (hd _ h2)⟩
+
+theorem zip_of_map_eq {α β γ} (f : α → γ) (f' : β → γ) : ∀ (l : List α) (l' : List β),
+    l.map f = l'.map f' → l.length = l'.length ∧ ∀ p ∈ l.zip l', f p.1 = f' p.2
+  | [], [], _ => by simp
+  | [], _ :: _, h => by simp at h
+  | _ :: _, [], h => by simp at h
+  | a :: l, b :: l', h => by
+    simp only [List.map_cons, List.cons.injEq] at h
+    obtain ⟨hl, hz⟩ := zip_of_map_eq f f' l l' h.2
+    refine ⟨by simp [hl], ?_⟩
+    intro p hp
+    simp only [List.zip_cons_cons, List.mem_cons] at hp
+    rcases hp with rfl | hp
+    · exact h.1
+    · exact hz p hp
+
+/-! ### groupRuns is groupAdjacent on the trees -/
+
+theorem groupRuns_cons_cons {a b : Bool × Tree} {rest blk : List (Bool × Tree)}
+    {blks : List (List (Bool × Tree))} (h : groupRuns (b :: rest) = blk :: blks) :
+    groupRuns (a :: b :: rest) =
+      if leftmost b.2 > rightmost a.2 + 1 then [a] :: blk :: blks else (a :: blk) :: blks := by
+  simp only [groupRuns, h]
+
+theorem groupRuns_cons : ∀ (m : List (Bool × Tree)) (c : Bool × Tree),
+    ∃ blk blks, groupRuns (c :: m) = (c :: blk) :: blks
+  | [], c => ⟨[], [], rfl⟩
+  | d :: m, c => by
+    obtain ⟨blk, blks, h⟩ := groupRuns_cons m d
+    rw [groupRuns_cons_cons h]
+    by_cases hc : leftmost d.2 > rightmost c.2 + 1
+    · rw [if_pos hc]; exact ⟨[], _, rfl⟩
+    · rw [if_neg hc]; exact ⟨_, _, rfl⟩
+
+theorem groupRuns_map : ∀ l : List (Bool × Tree),
+    (groupRuns l).map (·.map (·.2)) = groupAdjacent (l.map (·.2))
+  | [] => rfl
+  | [a] => rfl
+  | a :: b :: rest => by
+    obtain ⟨blk, blks, h⟩ := groupRuns_cons rest b
+    have ih := groupRuns_map (b :: rest)
+    rw [h] at ih
+    simp only [List.map_cons] at ih ⊢
+    rw [groupRuns_cons_cons h, groupAdjacent_cons_cons ih.symm]
+    split <;> simp
+
+theorem groupRuns_flatten : ∀ l : List (Bool × Tree), (groupRuns l).flatten = l
+  | [] => rfl
+  | [a] => rfl
+  | a :: b :: rest => by
+    obtain ⟨blk, blks, h⟩ := groupRuns_cons rest b
+    have ih := groupRuns_flatten (b :: rest)
+    rw [h] at ih
+    rw [groupRuns_cons_cons h]
+    split <;> simp_all
+
+/-! ### more on raising -/
+
+theorem raiseKids_eq : ∀ ks : List Tree, raiseKids ks = ks.flatMap raiseNode
+  | [] => rfl
+  | t :: ts => by simp [raiseKids, raiseKids_eq ts]
+
+theorem removable_of_carriesHead (b : Tree) (h : carriesHead b = true) : removable b = false := by
+  cases b with
+  | leaf n f => rfl
+  | node f ks =>
+    simp only [carriesHead, fields, Bool.and_eq_true, Bool.or_eq_true, bne_iff_ne, ne_eq,
+      beq_iff_eq] at h
+    simp only [removable, Bool.and_eq_false_iff, beq_eq_false_iff_ne, ne_eq]
+    rcases h.2 with h2 | h2
+    · exact Or.inl h2
+    · right; rw [h2]; simp
+
+theorem raiseNode_of_not_removable (f : Fields) (ks : List Tree) (h : removable (node f ks) = false) :
+    raiseNode (node f ks) = [node f (raiseKids ks)] := by
+  simp [raiseNode, h]
+
+theorem raiseNode_ne_nil_of_carriesHead (b : Tree) (h : carriesHead b = true) : raiseNode b ≠ [] := by
+  cases b with
+  | leaf n f => simp [raiseNode]
+  | node f ks => rw [raiseNode_of_not_removable f ks (removable_of_carriesHead _ h)]; simp
+
+mutual
+theorem raiseNode_noEmpty : (t : Tree) → noEmpty t = true → ∀ y ∈ raiseNode t, noEmpty y = true
+  | .leaf n f, _, y, hy => by
+    simp only [raiseNode, List.mem_singleton] at hy
+    subst hy; rfl
+  | .node f ks, h, y, hy => by
+    have hk := (noEmpty_node f ks).1 h
+    simp only [raiseNode] at hy
+    split at hy
+    · exact raiseKids_noEmpty ks hk.2 y hy
+    · rw [List.mem_singleton] at hy
+      subst hy
+      refine (noEmpty_node _ _).2 ⟨?_, raiseKids_noEmpty ks hk.2⟩
+      intro h0
+      have h1 := raiseKids_leaves ks
+      rw [h0] at h1
+      exact leavesL_ne_nil ks ((noEmptyL_iff ks).2 hk.2) hk.1 h1.symm
+theorem raiseKids_noEmpty : (ks : List Tree) → (∀ k ∈ ks, noEmpty k = true) →
+    ∀ y ∈ raiseKids ks, noEmpty y = true
+  | [], _, y, hy => by simp [raiseKids] at hy
+  | t :: ts, h, y, hy => by
+    simp only [raiseKids, List.mem_append] at hy
+    rcases hy with hy | hy
+    · exact raiseNode_noEmpty t (h t List.mem_cons_self) y hy
+    · exact raiseKids_noEmpty ts (fun k hk => h k (List.mem_cons_of_mem _ hk)) y hy
+end
+
+theorem raiseKids_leafNums (ks : List Tree) :
+    (raiseKids ks).flatMap leafNums = ks.flatMap leafNums := by
+  have := congrArg (List.map num) (raiseKids_leaves ks)
+  rw [leavesL_eq, leavesL_eq, List.map_flatMap, List.map_flatMap] at this
+  exact this
+
+theorem raiseNode_leafNums (t : Tree) : (raiseNode t).flatMap leafNums = t.leafNums := by
+  have := congrArg (List.map num) (raiseNode_leaves t)
+  rw [leavesL_eq, List.map_flatMap] at this
+  exact this
+
+theorem raiseNode_leafNums_sub {t y : Tree} (hy : y ∈ raiseNode t) {n : Nat} (hn : n ∈ y.leafNums) :
+    n ∈ t.leafNums := by
+  rw [← raiseNode_leafNums t]
+  exact List.mem_flatMap.2 ⟨y, hy, hn⟩
+
+/-- the leftmost token belongs to the tree -/
+theorem leftmost_mem_yield (t : Tree) (h : t.leafNums ≠ []) : leftmost t ∈ yield t := by
+  have hne : yield t ≠ [] := by
+    intro h0
+    have := yield_perm t
+    rw [h0] at this
+    exact h (List.perm_nil.1 this.symm)
+  cases hy : yield t with
+  | nil => exact absurd hy hne
+  | cons a l => simp [leftmost, hy]
+
+theorem map_leftmost_nodup (ks : List Tree) (hne : ∀ k ∈ ks, k.leafNums ≠ [])
+    (hn : (ks.flatMap leafNums).Nodup) : (ks.map leftmost).Nodup := by
+  rw [List.Nodup, List.pairwise_flatMap] at hn
+  rw [List.Nodup, List.pairwise_map]
+  refine hn.2.imp_of_mem ?_
+  intro a b ha hb hd
+  have h1 := (mem_yield a _).1 (leftmost_mem_yield a (hne a ha))
+  have h2 := (mem_yield b _).1 (leftmost_mem_yield b (hne b hb))
+  intro heq
+  exact hd _ h1 _ h2 heq
+
+/-! ### flagged, normalised items -/
+
+theorem flatMap_congr' {α β} {f g : α → List β} : ∀ {l : List α}, (∀ a ∈ l, f a = g a) →
+    l.flatMap f = l.flatMap g
+  | [], _ => rfl
+  | a :: l, h => by
+    rw [List.flatMap_cons, List.flatMap_cons, h a List.mem_cons_self,
+      flatMap_congr' (fun b hb => h b (List.mem_cons_of_mem _ hb))]
+
+def nrm (p : Bool × Tree) : Bool × Tree := (p.1, N p.2)
+
+/-- what raising leaves of a list of split nodes: the dissolved items in normal form, flagged by
+    whether they come from the node that carries the head -/
+def FB (l : List Tree) : List (Bool × Tree) :=
+  l.flatMap fun b => (raiseNode b).map fun y => (carriesHead b, N y)
+
+theorem FB_append (a b : List Tree) : FB (a ++ b) = FB a ++ FB b := by simp [FB]
+
+theorem FB_perm {a b : List Tree} (h : a.Perm b) : (FB a).Perm (FB b) := h.flatMap_right _
+
+theorem FB_map_snd (l : List Tree) : (FB l).map (·.2) = (raiseKids l).map N := by
+  simp only [FB, raiseKids_eq, List.map_flatMap, List.map_map, Function.comp_def]
+
+theorem FB_any (l : List Tree) : (FB l).any (·.1) = l.any carriesHead := by
+  induction l with
+  | nil => rfl
+  | cons b l ih =>
+    have : FB (b :: l) = (raiseNode b).map (fun y => (carriesHead b, N y)) ++ FB l := by simp [FB]
+    rw [this, List.any_append, ih, List.any_cons]
+    congr 1
+    cases hb : carriesHead b with
+    | false => simp
+    | true =>
+      have := raiseNode_ne_nil_of_carriesHead b hb
+      cases hr : raiseNode b with
+      | nil => exact absurd hr this
+      | cons y ys => simp
+
+theorem FB_of_no_head (l : List Tree) (h : l.any carriesHead = false) :
+    FB l = (raiseKids l).map (fun y => (false, N y)) := by
+  rw [raiseKids_eq, List.map_flatMap]
+  simp only [FB]
+  apply flatMap_congr'
+  intro b hb
+  have : carriesHead b = false := by
+    cases hc : carriesHead b with
+    | false => rfl
+    | true =>
+      have : l.any carriesHead = true := List.any_eq_true.2 ⟨b, hb, hc⟩
+      rw [h] at this; cases this
+  rw [this]
+
+theorem FB_filter (l : List Tree) (p : Nat → Bool)
+    (h : ∀ b ∈ l, ∀ y ∈ raiseNode b, p (leftmost y) = p (leftmost b)) :
+    FB (l.filter (fun b => p (leftmost b))) = (FB l).filter (fun q => p (leftmost q.2)) := by
+  induction l with
+  | nil => rfl
+  | cons b l ih =>
+    have ih' := ih (fun b' hb' => h b' (List.mem_cons_of_mem _ hb'))
+    have hcons : FB (b :: l) = (raiseNode b).map (fun y => (carriesHead b, N y)) ++ FB l := by
+      simp [FB]
+    rw [hcons, List.filter_append, ← ih', List.filter_cons]
+    have hb := h b List.mem_cons_self
+    cases hp : p (leftmost b) with
+    | true =>
+      have : ((raiseNode b).map (fun y => (carriesHead b, N y))).filter (fun q => p (leftmost q.2)) =
+          (raiseNode b).map (fun y => (carriesHead b, N y)) := by
+        rw [List.filter_eq_self]
+        intro q hq
+        obtain ⟨y, hy, rfl⟩ := List.mem_map.1 hq
+        simp only [leftmost_N, hb y hy, hp]
+      rw [this]
+      simp [FB]
+    | false =>
+      have : ((raiseNode b).map (fun y => (carriesHead b, N y))).filter (fun q => p (leftmost q.2)) = [] := by
+        rw [List.filter_eq_nil_iff]
+        intro q hq
+        obtain ⟨y, hy, rfl⟩ := List.mem_map.1 hq
+        simp only [leftmost_N, hb y hy, hp]
+        simp
+      rw [this]
+      simp
+
+/-! ### the numbered blocks after raising, and the keep/others split of the reference -/
+
+theorem N_node_label {f f' : Fields} (ks : List Tree) (h : f.label = f'.label) :
+    N (node f ks) = N (node f' ks) := by
+  rw [N_node, N_node, h]
+
+/-- block `g` of a node with fields `f`, numbered and raised -/
+def B1 (f : Fields) (g : List Tree) : List (Bool × Tree) :=
+  if g.any carriesHead then [(f.head == some true, N (node f (raiseKids g)))]
+  else (raiseKids g).map (fun y => (false, N y))
+
+theorem FB_numberBlocks (f : Fields) : ∀ (i : Nat) (G : List (List Tree)),
+    FB (numberBlocks f i G) = G.flatMap (B1 f)
+  | _, [] => rfl
+  | i, g :: G => by
+    have ih := FB_numberBlocks f (i + 1) G
+    rw [numberBlocks, List.flatMap_cons, ← ih]
+    have : ∀ (b : Tree) (l : List Tree), FB (b :: l) = FB [b] ++ FB l := fun b l =>
+      FB_append [b] l
+    rw [this]
+    congr 1
+    cases hany : g.any carriesHead with
+    | true =>
+      simp only [FB, List.flatMap_cons, List.flatMap_nil, List.append_nil, B1, hany, if_true]
+      rw [raiseNode_of_not_removable _ _ (by simp [removable])]
+      simp [carriesHead, fields, N_node]
+    | false =>
+      simp only [FB, List.flatMap_cons, List.flatMap_nil, List.append_nil, B1, hany]
+      simp [raiseNode, removable, carriesHead, fields]
+
+theorem perm_any_eq {α} {l l' : List α} (h : l.Perm l') (p : α → Bool) : l.any p = l'.any p := by
+  rw [Bool.eq_iff_iff, List.any_eq_true, List.any_eq_true]
+  constructor
+  · rintro ⟨x, hx, hp⟩; exact ⟨x, h.subset hx, hp⟩
+  · rintro ⟨x, hx, hp⟩; exact ⟨x, h.symm.subset hx, hp⟩
+
+/-- a block of the split tree and a run of the reference hold the same items -/
+def PairOK (f : Fields) (g : List Tree) (r : List (Bool × Tree)) : Prop :=
+  (FB g).Perm (r.map nrm) ∧ N (node f (raiseKids g)) = N (node f (r.map (·.2)))
+
+theorem any_of_pairOK {f : Fields} {g : List Tree} {r : List (Bool × Tree)} (h : PairOK f g r) :
+    g.any carriesHead = r.any (·.1) := by
+  rw [← FB_any, perm_any_eq h.1, List.any_map]
+  rfl
+
+theorem map_unflagged (r : List (Bool × Tree)) (h : r.any (·.1) = false) :
+    r.map nrm = r.map (fun p => (false, N p.2)) := by
+  apply List.map_congr_left
+  intro p hp
+  have : p.1 = false := by
+    cases h1 : p.1 with
+    | false => rfl
+    | true =>
+      have : r.any (·.1) = true := List.any_eq_true.2 ⟨p, hp, h1⟩
+      rw [h] at this; cases this
+  simp [nrm, this]
+
+theorem B1_unflagged {f : Fields} {g : List Tree} {r : List (Bool × Tree)} (h : PairOK f g r)
+    (hr : r.any (·.1) = false) : (B1 f g).Perm (r.map (fun p => (false, N p.2))) := by
+  have hg : g.any carriesHead = false := by rw [any_of_pairOK h, hr]
+  have : B1 f g = FB g := by
+    rw [FB_of_no_head g hg]; simp [B1, hg]
+  rw [this, ← map_unflagged r hr]
+  exact h.1
+
+theorem assembly_none (f : Fields) : ∀ (G : List (List Tree)) (runs : List (List (Bool × Tree))),
+    G.length = runs.length → (∀ p ∈ G.zip runs, PairOK f p.1 p.2) →
+    runs.flatten.any (·.1) = false →
+    (G.flatMap (B1 f)).Perm (runs.flatten.map (fun p => (false, N p.2)))
+  | [], [], _, _, _ => by simp
+  | [], _ :: _, h, _, _ => by simp at h
+  | _ :: _, [], h, _, _ => by simp at h
+  | g :: G, r :: runs, hl, hp, hf => by
+    simp only [List.flatten_cons, List.any_append, Bool.or_eq_false_iff] at hf
+    have h1 := B1_unflagged (hp (g, r) (by simp)) hf.1
+    have h2 := assembly_none f G runs (by simpa using hl)
+      (fun p hp' => hp p (by simp [hp'])) hf.2
+    simp only [List.flatMap_cons, List.flatten_cons, List.map_append]
+    exact h1.append h2
+
+/-- number of flagged items -/
+def cnt (l : List (Bool × Tree)) : Nat := (l.filter (·.1)).length
+
+theorem cnt_append (a b : List (Bool × Tree)) : cnt (a ++ b) = cnt a + cnt b := by simp [cnt]
+
+theorem cnt_eq_zero (l : List (Bool × Tree)) : cnt l = 0 ↔ l.any (·.1) = false := by
+  simp only [cnt, List.length_eq_zero_iff, List.filter_eq_nil_iff]
+  constructor
+  · intro h
+    cases ha : l.any (·.1) with
+    | false => rfl
+    | true =>
+      obtain ⟨x, hx, hp⟩ := List.any_eq_true.1 ha
+      exact absurd hp (h x hx)
+  · intro h x hx hp
+    have : l.any (·.1) = true := List.any_eq_true.2 ⟨x, hx, hp⟩
+    rw [h] at this; cases this
+
+theorem assembly (f : Fields) : ∀ (G : List (List Tree)) (runs : List (List (Bool × Tree))),
+    G.length = runs.length → (∀ p ∈ G.zip runs, PairOK f p.1 p.2) →
+    cnt runs.flatten = 1 →
+    (G.flatMap (B1 f)).Perm
+      ((f.head == some true,
+        N (node f (((runs[(runs.findIdx? (fun r => r.any (·.1))).getD 0]?).getD []).map (·.2)))) ::
+       ((runs.eraseIdx ((runs.findIdx? (fun r => r.any (·.1))).getD 0)).flatten.map
+          (fun p => (false, N p.2))))
+  | [], [], _, _, hc => by simp [cnt] at hc
+  | [], _ :: _, h, _, _ => by simp at h
+  | _ :: _, [], h, _, _ => by simp at h
+  | g :: G, r :: runs, hl, hp, hc => by
+    have hl' : G.length = runs.length := by simpa using hl
+    have hp' : ∀ p ∈ G.zip runs, PairOK f p.1 p.2 := fun p hp'' => hp p (by simp [hp''])
+    have hgr : PairOK f g r := hp (g, r) (by simp)
+    rw [List.flatten_cons, cnt_append] at hc
+    rw [List.findIdx?_cons]
+    cases hr : r.any (·.1) with
+    | true =>
+      have hcr : cnt r ≠ 0 := by rw [Ne, cnt_eq_zero, hr]; simp
+      have hc0 : cnt runs.flatten = 0 := by omega
+      have h2 := assembly_none f G runs hl' hp' ((cnt_eq_zero _).1 hc0)
+      have hg : g.any carriesHead = true := by rw [any_of_pairOK hgr, hr]
+      simp only [if_true, Option.getD_some, List.getElem?_cons_zero, List.eraseIdx_cons_zero,
+        List.flatMap_cons]
+      have : B1 f g = [(f.head == some true, N (node f (r.map (·.2))))] := by
+        simp [B1, hg, hgr.2]
+      rw [this]
+      exact List.Perm.cons _ h2
+    | false =>
+      have hcr : cnt r = 0 := (cnt_eq_zero r).2 hr
+      have hc1 : cnt runs.flatten = 1 := by omega
+      have ih := assembly f G runs hl' hp' hc1
+      have h1 := B1_unflagged hgr hr
+      cases hfi : runs.findIdx? (fun r => r.any (·.1)) with
+      | none =>
+        exfalso
+        rw [List.findIdx?_eq_none_iff] at hfi
+        have : runs.flatten.any (·.1) = false := by
+          rw [List.any_flatten]
+          cases ha : runs.any (fun r => r.any (·.1)) with
+          | false => rfl
+          | true =>
+            obtain ⟨x, hx, hpx⟩ := List.any_eq_true.1 ha
+            have := hfi x hx
+            simp [hpx] at this
+        rw [(cnt_eq_zero _).2 this] at hc1
+        cases hc1
+      | some k =>
+        rw [hfi] at ih
+        simp only [Bool.false_eq_true, if_false, Option.map_some, Option.getD_some,
+          List.getElem?_cons_succ, List.eraseIdx_cons_succ, List.flatten_cons, List.map_append,
+          List.flatMap_cons] at ih ⊢
+        exact (h1.append ih).trans List.perm_middle
+
+/-! ### a block of the split tree and the run of the reference over the same tokens -/
+
+theorem N_node_eq_of_perm (f f' : Fields) (X X' : List Tree) (hl : f.label = f'.label)
+    (hp : (X.map N).Perm (X'.map N)) (hd : (X.map leftmost).Nodup) :
+    N (node f X) = N (node f' X') := by
+  rw [N_node, N_node, hl]
+  congr 1
+  refine sortBy_perm_eq leftmost _ _ hp ?_
+  rw [List.map_map]
+  have : (leftmost ∘ N) = leftmost := funext leftmost_N
+  rw [this]; exact hd
+
+theorem leafNums_perm_of_N_perm {l l' : List Tree} (h : (l.map N).Perm (l'.map N)) :
+    (l.flatMap leafNums).Perm (l'.flatMap leafNums) := by
+  have e : ∀ m : List Tree, (m.map N).flatMap yield = m.flatMap yield := by
+    intro m; rw [List.flatMap_map]; exact flatMap_congr' (fun a _ => yield_N a)
+  have := h.flatMap_right yield
+  rw [e, e] at this
+  exact (flatMap_yield_perm l).trans (this.trans (flatMap_yield_perm l').symm)
+
+theorem pair_perm (ks' : List Tree) (pool : List (Bool × Tree)) (G : List (List Tree))
+    (runs : List (List (Bool × Tree))) (L : List Tree) (Lp : List (Bool × Tree))
+    (hGf : G.flatten = L) (hRf : runs.flatten = Lp) (hL : L.Perm ks') (hLp : Lp.Perm pool)
+    (hP : (FB ks').Perm (pool.map nrm))
+    (hkG : ∀ g ∈ G, ∀ z ∈ g, leftmost z ∈ g.flatMap yield)
+    (hkR : ∀ r ∈ runs, ∀ q ∈ r, leftmost q.2 ∈ r.flatMap (fun x => yield x.2))
+    (hdG : G.Pairwise (fun a b => ∀ n ∈ a.flatMap yield, n ∉ b.flatMap yield))
+    (hdR : runs.Pairwise (fun a b => ∀ n ∈ a.flatMap (fun x => yield x.2),
+      n ∉ b.flatMap (fun x => yield x.2)))
+    (hsub : ∀ b ∈ L, ∀ y ∈ raiseNode b, leftmost y ∈ yield b)
+    (hbb : ∀ b ∈ L, leftmost b ∈ yield b)
+    (g : List Tree) (hg : g ∈ G) (r : List (Bool × Tree)) (hr : r ∈ runs)
+    (hS : g.flatMap yield = r.flatMap (fun x => yield x.2)) : (FB g).Perm (r.map nrm) := by
+  have e1 : L.filter (fun z => decide (leftmost z ∈ g.flatMap yield)) = g := by
+    rw [← hGf]
+    exact filter_flatten_group leftmost (fun g => g.flatMap yield) G hkG hdG g hg
+  have e2 : Lp.filter (fun q => decide (leftmost q.2 ∈ g.flatMap yield)) = r := by
+    rw [← hRf, hS]
+    exact filter_flatten_group (fun q => leftmost q.2) (fun r => r.flatMap (fun x => yield x.2))
+      runs hkR hdR r hr
+  have e3 := FB_filter L (fun n => decide (n ∈ g.flatMap yield)) (by
+    intro b hb y hy
+    rw [← hGf] at hb
+    obtain ⟨g', hg', hbg'⟩ := List.mem_flatten.1 hb
+    have h1 : leftmost y ∈ g'.flatMap yield :=
+      List.mem_flatMap.2 ⟨b, hbg', hsub b (hGf ▸ hb) y hy⟩
+    have h2 : leftmost b ∈ g'.flatMap yield := List.mem_flatMap.2 ⟨b, hbg', hbb b (hGf ▸ hb)⟩
+    exact decide_eq_decide.2 (mem_group_iff (fun g => g.flatMap yield) hdG hg hg' h1 h2))
+  rw [e1] at e3
+  rw [e3]
+  have h1 : (FB L).Perm (Lp.map nrm) :=
+    (FB_perm hL).trans (hP.trans (hLp.map nrm).symm)
+  refine (h1.filter _).trans ?_
+  rw [List.filter_map]
+  have : ((fun (q : Bool × Tree) => decide (leftmost q.2 ∈ g.flatMap yield)) ∘ nrm) =
+      fun q => decide (leftmost q.2 ∈ g.flatMap yield) := by
+    funext q; simp [nrm, leftmost_N]
+  rw [this, e2]
+
+theorem cnt_perm {a b : List (Bool × Tree)} (h : a.Perm b) : cnt a = cnt b :=
+  (h.filter _).length_eq
+
+theorem nodup_of_strict {l : List Nat} (h : l.Pairwise (· < ·)) : l.Nodup :=
+  h.imp (fun h => Nat.ne_of_lt h)
+
+/-- the node-level step against the reference -/
+theorem node_spec (f : Fields) (ks' bs : List Tree) (pool : List (Bool × Tree))
+    (h : boydStep f ks' = .ok bs)
+    (hgood : ∀ x ∈ ks', continuous x = true ∧ noEmpty x = true)
+    (hn : (ks'.flatMap leafNums).Nodup) (hne : ks' ≠ [])
+    (hP : (FB ks').Perm (pool.map nrm)) (hcnt : cnt pool = 1) :
+    (FB bs).Perm
+      ((f.head == some true,
+        N (node f ((((groupRuns (sortBy (fun x => leftmost x.2) pool))[((groupRuns (sortBy (fun x => leftmost x.2) pool)).findIdx?
+          (fun r => r.any (·.1))).getD 0]?).getD []).map (·.2)))) ::
+       (((groupRuns (sortBy (fun x => leftmost x.2) pool)).eraseIdx
+          (((groupRuns (sortBy (fun x => leftmost x.2) pool)).findIdx? (fun r => r.any (·.1))).getD 0)).flatten.map
+          (fun p => (false, N p.2)))) := by
+  -- the raised children
+  have hRgood : ∀ y ∈ raiseKids ks', continuous y = true ∧ noEmpty y = true := fun y hy =>
+    ⟨raiseKids_cont ks' (fun k hk => (hgood k hk).1) y hy,
+     raiseKids_noEmpty ks' (fun k hk => (hgood k hk).2) y hy⟩
+  have hRn : ((raiseKids ks').flatMap leafNums).Nodup := by rw [raiseKids_leafNums]; exact hn
+  have hIK : ∀ x ∈ ks', Ival x := fun x hx =>
+    ival_of x (continuous_root x (hgood x hx).1) (leafNums_ne_nil x (hgood x hx).2)
+      (nodup_of_mem_flatMap hn hx)
+  have hIR : ∀ y ∈ raiseKids ks', Ival y := fun y hy =>
+    ival_of y (continuous_root y (hRgood y hy).1) (leafNums_ne_nil y (hRgood y hy).2)
+      (nodup_of_mem_flatMap hRn hy)
+  -- the pool holds the same items
+  have poolN : ((raiseKids ks').map N).Perm (pool.map (fun p => N p.2)) := by
+    have := hP.map (·.2)
+    rw [FB_map_snd, List.map_map] at this
+    exact this
+  have hIP : ∀ x ∈ pool.map (·.2), Ival x := by
+    intro x hx
+    obtain ⟨p, hp, rfl⟩ := List.mem_map.1 hx
+    have : N p.2 ∈ (raiseKids ks').map N :=
+      poolN.symm.subset (List.mem_map.2 ⟨p, hp, rfl⟩)
+    obtain ⟨y, hy, hyN⟩ := List.mem_map.1 this
+    obtain ⟨a, n, hya⟩ := hIR y hy
+    exact ⟨a, n, (yield_of_N_eq hyN).symm.trans hya⟩
+  have poolLeaf : ((pool.map (·.2)).flatMap leafNums).Perm (ks'.flatMap leafNums) := by
+    have := leafNums_perm_of_N_perm (l := pool.map (·.2)) (l' := raiseKids ks')
+      (by rw [List.map_map]; exact poolN.symm)
+    rwa [raiseKids_leafNums] at this
+  obtain ⟨kSorted, _, kGroups, _, kGroupSorted⟩ := nodeStep ks' hIK hn
+  obtain ⟨pSorted, _, pGroups, _, _⟩ := nodeStep (pool.map (·.2)) hIP (poolLeaf.symm.nodup hn)
+  -- names
+  generalize hL : sortBy leftmost ks' = L at kSorted kGroups kGroupSorted
+  generalize hG : groupAdjacent L = G at kGroups kGroupSorted
+  generalize hLp : sortBy (fun (x : Bool × Tree) => leftmost x.2) pool = Lp
+  generalize hruns : groupRuns Lp = runs
+  have hGf : G.flatten = L := by rw [← hG]; exact groupAdjacent_flatten L
+  have hRf : runs.flatten = Lp := by rw [← hruns]; exact groupRuns_flatten Lp
+  have hLperm : L.Perm ks' := by rw [← hL]; exact sortBy_perm _ _
+  have hLpperm : Lp.Perm pool := by rw [← hLp]; exact sortBy_perm _ _
+  have hLpmap : sortBy leftmost (pool.map (·.2)) = Lp.map (·.2) := by
+    rw [← hLp]
+    exact sortBy_map (fun (x : Bool × Tree) => leftmost x.2) leftmost (·.2) (fun _ => rfl) pool
+  have hrunsmap : groupAdjacent (sortBy leftmost (pool.map (·.2))) = runs.map (·.map (·.2)) := by
+    rw [hLpmap, ← hruns]; exact (groupRuns_map Lp).symm
+  rw [hrunsmap] at pGroups
+  -- same blocks
+  have hB : G.map (fun g => g.flatMap yield) = runs.map (fun r => r.flatMap (fun x => yield x.2)) := by
+    have h1 := kGroups
+    have h2 := pGroups
+    rw [sortBy_id_congr poolLeaf, ← h1, List.map_map] at h2
+    rw [← h2]
+    apply List.map_congr_left
+    intro r _
+    simp only [Function.comp_apply, List.flatMap_map]
+  obtain ⟨hlen, hzip⟩ := zip_of_map_eq _ _ G runs hB
+  -- keys and disjointness
+  have hLI : ∀ b ∈ L, Ival b := fun b hb => hIK b (hLperm.subset hb)
+  have hbb : ∀ b ∈ L, leftmost b ∈ yield b := by
+    intro b hb
+    obtain ⟨a, n, hy⟩ := hLI b hb
+    rw [leftmost_of_ival hy, hy]; simp
+  have hkG : ∀ g ∈ G, ∀ z ∈ g, leftmost z ∈ g.flatMap yield := by
+    intro g hg z hz
+    have hzL : z ∈ L := hGf ▸ List.mem_flatten.2 ⟨g, hg, hz⟩
+    exact List.mem_flatMap.2 ⟨z, hz, hbb z hzL⟩
+  have hkR : ∀ r ∈ runs, ∀ q ∈ r, leftmost q.2 ∈ r.flatMap (fun x => yield x.2) := by
+    intro r hr q hq
+    have hqL : q ∈ Lp := hRf ▸ List.mem_flatten.2 ⟨r, hr, hq⟩
+    have : q.2 ∈ pool.map (·.2) := List.mem_map.2 ⟨q, hLpperm.subset hqL, rfl⟩
+    obtain ⟨a, n, hy⟩ := hIP q.2 this
+    refine List.mem_flatMap.2 ⟨q, hq, ?_⟩
+    rw [leftmost_of_ival hy, hy]; simp
+  have hdG : G.Pairwise (fun a b => ∀ n ∈ a.flatMap yield, n ∉ b.flatMap yield) := by
+    have := kSorted
+    rw [← hGf, List.flatMap_def, List.map_flatten, List.flatten_flatten, List.pairwise_flatten] at this
+    have h2 := this.2
+    rw [List.map_map, List.pairwise_map] at h2
+    refine h2.imp ?_
+    intro a b hab n hna hnb
+    exact Nat.lt_irrefl _ (hab n hna n hnb)
+  have hdR : runs.Pairwise (fun a b => ∀ n ∈ a.flatMap (fun x => yield x.2),
+      n ∉ b.flatMap (fun x => yield x.2)) := by
+    have := pSorted
+    rw [hLpmap, ← hRf, List.flatMap_map, List.flatMap_def, List.map_flatten, List.flatten_flatten,
+      List.pairwise_flatten] at this
+    have h2 := this.2
+    rw [List.map_map, List.pairwise_map] at h2
+    refine h2.imp ?_
+    intro a b hab n hna hnb
+    exact Nat.lt_irrefl _ (hab n hna n hnb)
+  have hsub : ∀ b ∈ L, ∀ y ∈ raiseNode b, leftmost y ∈ yield b := by
+    intro b hb y hy
+    have hbk : b ∈ ks' := hLperm.subset hb
+    have hyR : y ∈ raiseKids ks' := by
+      rw [raiseKids_eq]; exact List.mem_flatMap.2 ⟨b, hbk, hy⟩
+    have h1 := leftmost_mem_yield y (leafNums_ne_nil y (hRgood y hyR).2)
+    rw [mem_yield] at h1 ⊢
+    exact raiseNode_leafNums_sub hy h1
+  -- every block against its run
+  have hpair : ∀ p ∈ G.zip runs, PairOK f p.1 p.2 := by
+    rintro ⟨g, r⟩ hp
+    obtain ⟨hg, hr⟩ := List.of_mem_zip hp
+    have hS := hzip (g, r) hp
+    have hperm := pair_perm ks' pool G runs L Lp hGf hRf hLperm hLpperm hP hkG hkR hdG hdR hsub hbb
+      g hg r hr hS
+    refine ⟨hperm, ?_⟩
+    have hgsub : ∀ z ∈ g, z ∈ ks' := fun z hz =>
+      hLperm.subset (hGf ▸ List.mem_flatten.2 ⟨g, hg, hz⟩)
+    apply N_node_eq_of_perm f f _ _ rfl
+    · have := hperm.map (·.2)
+      rw [FB_map_snd] at this
+      simpa [List.map_map, nrm, Function.comp_def] using this
+    · apply map_leftmost_nodup
+      · intro y hy
+        have : y ∈ raiseKids ks' := by
+          rw [raiseKids_eq] at hy ⊢
+          obtain ⟨b, hb, hyb⟩ := List.mem_flatMap.1 hy
+          exact List.mem_flatMap.2 ⟨b, hgsub b hb, hyb⟩
+        exact leafNums_ne_nil y (hRgood y this).2
+      · rw [raiseKids_leafNums]
+        exact (flatMap_yield_perm g).symm.nodup (nodup_of_strict (kGroupSorted g hg))
+  have hc : cnt runs.flatten = 1 := by rw [hRf, cnt_perm hLpperm]; exact hcnt
+  have hasm := assembly f G runs hlen hpair hc
+  refine List.Perm.trans ?_ hasm
+  -- what boyd_split built
+  unfold boydStep at h
+  rw [hL, hG] at h
+  split at h
+  · rename_i hlen1
+    simp only [Except.ok.injEq] at h
+    subst h
+    have hLne : L ≠ [] := by
+      intro h0
+      rw [h0] at hLperm
+      exact hne (List.perm_nil.1 hLperm.symm)
+    have hG1 : G = [L] := by
+      cases G with
+      | nil => exact absurd hGf.symm hLne
+      | cons g G' =>
+        cases G' with
+        | nil => simpa using hGf
+        | cons g' G'' => simp at hlen1
+    -- the single block carries the head
+    have hany : L.any carriesHead = true := by
+      have h1 : (FB ks').any (·.1) = true := by
+        rw [perm_any_eq hP, List.any_map]
+        have : cnt pool ≠ 0 := by omega
+        rw [Ne, cnt_eq_zero] at this
+        cases hq : pool.any (·.1) with
+        | false => exact absurd hq this
+        | true =>
+          have : ((fun (x : Bool × Tree) => x.1) ∘ nrm) = (·.1) := rfl
+          rw [this, hq]
+      rw [FB_any] at h1
+      rw [← h1]; exact perm_any_eq hLperm _
+    rw [hG1]
+    simp only [List.flatMap_cons, List.flatMap_nil, List.append_nil, B1, hany, if_true]
+    have hN : N (node { f with split := some false, headBlock := some true } (raiseKids ks')) =
+        N (node f (raiseKids L)) := by
+      apply N_node_eq_of_perm _ _ _ _ rfl
+      · rw [raiseKids_eq, raiseKids_eq]
+        exact (hLperm.symm.flatMap_right raiseNode).map N
+      · exact map_leftmost_nodup _ (fun y hy => leafNums_ne_nil y (hRgood y hy).2) hRn
+    simp only [FB, List.flatMap_cons, List.flatMap_nil, List.append_nil]
+    rw [raiseNode_of_not_removable _ _ (by simp [removable])]
+    simp only [List.map_cons, List.map_nil, hN]
+    simp [carriesHead, fields]
+  · split at h
+    · simp at h
+    · simp only [Except.ok.injEq] at h
+      subst h
+      rw [FB_numberBlocks]
+
+/-! ### boyd_split + raising against the reference -/
+
+theorem cnt_contSpecL : ∀ ks : List Tree,
+    cnt (contSpecL ks) = (ks.filter (fun k => k.fields.head == some true)).length
+  | [] => rfl
+  | t :: ts => by
+    have ih := cnt_contSpecL ts
+    have h0 : ∀ l : List Tree, cnt (l.map fun u => (false, u)) = 0 := by
+      intro l; simp [cnt]
+    simp only [contSpecL]
+    rw [show ∀ (x : Bool × Tree) (a b : List (Bool × Tree)), x :: a ++ b = [x] ++ a ++ b from
+      fun _ _ _ => rfl, cnt_append, cnt_append, h0, ih, List.filter_cons]
+    cases hh : (t.fields.head == some true) <;> simp [cnt] <;> omega
+
+theorem numberBlocks_length (f : Fields) : ∀ (i : Nat) (G : List (List Tree)),
+    (numberBlocks f i G).length = G.length
+  | _, [] => rfl
+  | i, g :: G => by simp [numberBlocks, numberBlocks_length f (i + 1) G]
+
+/-- the hypothesis of C05: exactly one head child in every constituent -/
+def OneHead (l : List Tree) : Prop :=
+  ∀ s ∈ l, ∀ f ks, s = node f ks → (ks.filter (fun k => k.fields.head == some true)).length = 1
+
+mutual
+theorem boydNode_spec : (t : Tree) → (bs : List Tree) → boydNode t = .ok bs →
+    noEmpty t = true → t.leafNums.Nodup → OneHead (subtrees t) →
+    (FB bs).Perm ((t.fields.head == some true, N (contSpec t).1) ::
+      (contSpec t).2.map (fun u => (false, N u)))
+  | .leaf n f, bs, h, _, _, _ => by
+    simp only [boydNode, Except.ok.injEq] at h
+    subst h
+    simp [FB, raiseNode, carriesHead, fields, contSpec, N_leaf]
+  | .node f ks, bs, h, hne, hn, hh => by
+    rw [boydNode_node] at h
+    cases hk : boydKids ks with
+    | error e => simp [hk] at h
+    | ok ks' =>
+      simp only [hk] at h
+      simp only [noEmpty, Bool.and_eq_true, Bool.not_eq_true', List.isEmpty_eq_false_iff] at hne
+      rw [leafNums_node] at hn
+      have hgood := boydKids_good ks ks' hk hne.2 hn
+      obtain ⟨hn', hne'⟩ := kids_ready ks ks' hk hne.2 hne.1 hn
+      have hP := boydKids_spec ks ks' hk hne.2 hn
+        (fun s hs => hh s (by simp [subtrees, hs]))
+      have hcnt : cnt (contSpecL ks) = 1 := by
+        rw [cnt_contSpecL]; exact hh (node f ks) (by simp [subtrees]) f ks rfl
+      have := node_spec f ks' bs (contSpecL ks) h hgood hn' hne' hP hcnt
+      simp only [contSpec, fields, List.map_map]
+      exact this
+theorem boydKids_spec : (ks : List Tree) → (ks' : List Tree) → boydKids ks = .ok ks' →
+    noEmptyL ks = true → (ks.flatMap leafNums).Nodup → OneHead (subtreesL ks) →
+    (FB ks').Perm ((contSpecL ks).map nrm)
+  | [], ks', h, _, _, _ => by
+    simp only [boydKids, Except.ok.injEq] at h
+    subst h
+    simp [FB, contSpecL]
+  | t :: ts, ks', h, hne, hn, hh => by
+    simp only [boydKids] at h
+    cases ht : boydNode t with
+    | error e => simp [ht] at h
+    | ok a =>
+      cases hts : boydKids ts with
+      | error e => simp [ht, hts] at h
+      | ok b =>
+        simp only [ht, hts, Except.ok.injEq] at h
+        subst h
+        simp only [noEmptyL, Bool.and_eq_true] at hne
+        rw [List.flatMap_cons, List.nodup_append] at hn
+        have h1 := boydNode_spec t a ht hne.1 hn.1
+          (fun s hs => hh s (by simp [subtreesL, hs]))
+        have h2 := boydKids_spec ts b hts hne.2 hn.2.1
+          (fun s hs => hh s (by simp [subtreesL, hs]))
+        rw [FB_append]
+        simp only [contSpecL, List.map_cons, List.map_append, List.map_map, List.cons_append]
+        exact h1.append h2
+end
+
+/-- at the root: the split root is one node and raising it gives the reference tree, in normal form -/
+theorem root_spec (f : Fields) (ks : List Tree) (t' : Tree) (h : boydNode (node f ks) = .ok [t'])
+    (hne : noEmpty (node f ks) = true) (hn : (node f ks).leafNums.Nodup)
+    (hh : OneHead (subtrees (node f ks))) :
+    N (raising t') = N (contSpecRoot (node f ks)) := by
+  rw [boydNode_node] at h
+  cases hk : boydKids ks with
+  | error e => simp [hk] at h
+  | ok ks' =>
+    simp only [hk] at h
+    simp only [noEmpty, Bool.and_eq_true, Bool.not_eq_true', List.isEmpty_eq_false_iff] at hne
+    rw [leafNums_node] at hn
+    have hgood := boydKids_good ks ks' hk hne.2 hn
+    obtain ⟨hn', hne'⟩ := kids_ready ks ks' hk hne.2 hne.1 hn
+    have hP := boydKids_spec ks ks' hk hne.2 hn (fun s hs => hh s (by simp [subtrees, hs]))
+    unfold boydStep at h
+    split at h
+    · simp only [Except.ok.injEq, List.cons.injEq, and_true] at h
+      subst h
+      simp only [raising, contSpecRoot]
+      apply N_node_eq_of_perm _ _ _ _ rfl
+      · have := hP.map (·.2)
+        rw [FB_map_snd] at this
+        simpa [List.map_map, nrm, Function.comp_def] using this
+      · apply map_leftmost_nodup
+        · intro y hy
+          exact leafNums_ne_nil y (raiseKids_noEmpty ks' (fun k hk' => (hgood k hk').2) y hy)
+        · rw [raiseKids_leafNums]; exact hn'
+    · rename_i hlen
+      split at h
+      · simp at h
+      · simp only [Except.ok.injEq] at h
+        have := congrArg List.length h
+        rw [numberBlocks_length] at this
+        simp only [List.length_cons, List.length_nil] at this
+        omega
+
 end TT.Lemmas.Boyd
